@@ -111,6 +111,17 @@ def family(rng, idx):
         members.append((("splitresult-rootless", base), lambda: URL(SplitResult(sch, host, path[1:], q[1:], f[1:]), encoded=True)))
         members.append((("splitresult-rooted", base), lambda: URL(SplitResult(sch, host, path, q[1:], f[1:]), encoded=True)))
         members.append((("pickled-rootless", base), lambda: pickle.loads(pickle.dumps(URL(SplitResult(sch, host, path[1:], q[1:], f[1:]), encoded=True)))))
+    # SPELLINGS only pre-encoded routes can hold: the same components in another letter case (scheme, host, hex digits of escapes);
+    # components are compared as stored, so these are different URLs - for ==, hash() and the ordering alike
+    if sch:
+        members.append((("case-scheme-build", base), lambda: URL.build(scheme=sch.upper(), host=host, path=path, query_string=q[1:], fragment=f[1:], encoded=True)))
+        members.append((("case-scheme-splitresult", base), lambda: URL(SplitResult(sch.capitalize(), host, path, q[1:], f[1:]), encoded=True)))
+        members.append((("case-scheme-pickled", base), lambda: pickle.loads(pickle.dumps(URL.build(scheme=sch.upper(), host=host, path=path, query_string=q[1:], fragment=f[1:], encoded=True)))))
+        members.append((("case-scheme-twin", base), lambda: URL(SplitResult(sch, host, path, q[1:], f[1:]), encoded=True)))
+    if host:
+        members.append((("case-host-splitresult", base), lambda: URL(SplitResult(sch, host.upper(), path, q[1:], f[1:]), encoded=True)))
+    members.append((("case-escapes", base), lambda: URL(SplitResult(sch, host, (path or "/") + "%2f%c3%a9", q[1:], f[1:]), encoded=True)))
+    members.append((("case-escapes-upper", base), lambda: URL(SplitResult(sch, host, (path or "/") + "%2F%C3%A9", q[1:], f[1:]), encoded=True)))
     # non-round-trip: a DIFFERENT used source (built from text) is modified into the target value
     def mk(q2=q, f2=f, path2=path, port2=port):
         return f"{pre}{user + '@' if user else ''}{host}{port2}{path2}{q2}{f2}"
